@@ -88,6 +88,16 @@ def measure(cell, seed, npts):
             de = c.d5(lambda x: f(x, a0, mu2t), a1, h)
             rhs = c.gamma_of_a(a1, gq) / c.beta_of_a(a1, bq)
             res = abs(de / e - rhs) / abs(rhs)
+        elif cell["clause"] == "steps":
+            # through the dispatcher, alpha_em "running" but equal on every step: the product over the steps
+            # (couplings and scales cut geometrically) is the one-step solution between the end points
+            from harness.laws import kern
+
+            iters = 2 + (int(rng.random() * 4))
+            as_list, a_half = kern.steps(a0, a1, iters, aem)
+            got = kern.ns_qed(order, oq, g, as_list, a_half[:, 1], nf, iters, mu2f, mu2t, running=True)
+            one = f(a1, a0, mu2t)
+            res = abs(got - one) / abs(one)
         else:  # "scale": d ln E / d ln mu2_to = -gamma_qed(a_em)
             lt = np.log(mu2t)
             e = f(a1, a0, mu2t)
